@@ -23,6 +23,8 @@ import PynetVerif.Driver.Pdu
 import PynetVerif.Driver.Release
 import PynetVerif.Driver.Timeouts
 import PynetVerif.Driver.Deliver
+import PynetVerif.Driver.Pair
+import PynetVerif.Driver.Pause
 open PynetVerif
 
 /-- Each model contributes `String → List SExp → Option SExp` (none = not my op). -/
@@ -50,7 +52,9 @@ def handlers : List (String → List SExp → Option SExp) :=
    Driver.pduOps,
    Driver.releaseOps,
    Driver.timeoutsOps,
-   Driver.deliverOps]
+   Driver.deliverOps,
+   Driver.pairOps,
+   Driver.pauseOps]
 
 def handle (e : SExp) : SExp :=
   match e with
